@@ -46,8 +46,9 @@ TECH = {
     "C10": MSCHED_TECH + " under a virtual clock" + BT + "; plus exhaustive enumeration of the Error variants",
     "C11": MSCHED_TECH + TS + " (decide); a sampling multi-thread stress run is reported alongside, labelled non-deciding",
     "C12": MSCHED_TECH + ", on two builds" + BT,
+    "C20": MSCHED_TECH + ", on the metrics build and on the metrics+tracing build (decide); a sampling run with concurrent reader threads is reported alongside, labelled non-deciding",
     "C13": MSCHED_TECH + BT + TS + " (decide); a sampling multi-thread stress run of the counter is reported alongside, labelled non-deciding",
-    "C15": MSCHED_TECH + TS,
+    "C15": MSCHED_TECH + TS + " (with tracing events as further scheduling points)",
     "C14": MSCHED_TECH + TS + "; plus exhaustive enumeration of all acyclic functional graphs with <= 5 (6) nodes for the wait-for walk",
     "C16": "differential stateless model checking: the whole schedule tree of a direct program and of each type-erased variant, same schedule => same observable trace" + BT,
     "C17": "exhaustive enumeration of operation-level orders of real OS threads driving the blocking API of the real code (thread timing inside one operation is free-running)",
